@@ -1,6 +1,7 @@
 SPECIFICATION Spec
 CONSTANTS N = 3
  MaxCalls = 3
+ WithList = FALSE
  FinalOccursCheck = TRUE
 INVARIANT TypeOK
 INVARIANT Flat
